@@ -3,16 +3,16 @@
 # that the change compiles, passes the 193 tests, and that its demo passes without and fails with the change.
 set -u
 SRC=$(readlink -f "$1")
-WT=/tmp/mut11/confirm
+M=${MUT:-/tmp/mut12}; WT=$M/confirm
 export CARGO_NET_OFFLINE=true RUST_BACKTRACE=0
 if [ ! -d $WT ]; then git -C /repo worktree add -q --detach $WT HEAD || exit 3; fi
 cd $WT && git checkout -q --detach $(git -C /repo rev-parse HEAD) && git checkout -- . && git clean -fdq -e target
 echo "== base build"; cargo build --offline 2>&1 | tail -1
-cp target/debug/mscript /tmp/mut11/confirm-base-mscript
-echo "== demo on base"; (cd "$SRC" && bash ./demo.sh /tmp/mut11/confirm-base-mscript >/tmp/mut11/confirm-demo-base.log 2>&1; echo "demo_base_rc=$?"); tail -2 /tmp/mut11/confirm-demo-base.log
+cp target/debug/mscript $M/confirm-base-mscript
+echo "== demo on base"; (cd "$SRC" && bash ./demo.sh $M/confirm-base-mscript >$M/confirm-demo-base.log 2>&1; echo "demo_base_rc=$?"); tail -2 $M/confirm-demo-base.log
 git apply "$SRC/patch.diff" || { echo "APPLY-FAILED"; exit 3; }
 echo "== mutant build"; cargo build --offline 2>&1 | tail -1
 echo "== tests"; cargo nextest run --workspace --no-fail-fast --offline 2>&1 | grep -E "Summary|FAIL" | head -5
-cp target/debug/mscript /tmp/mut11/confirm-mut-mscript
-echo "== demo on mutant"; (cd "$SRC" && bash ./demo.sh /tmp/mut11/confirm-mut-mscript >/tmp/mut11/confirm-demo-mut.log 2>&1; echo "demo_mut_rc=$?"); tail -2 /tmp/mut11/confirm-demo-mut.log
+cp target/debug/mscript $M/confirm-mut-mscript
+echo "== demo on mutant"; (cd "$SRC" && bash ./demo.sh $M/confirm-mut-mscript >$M/confirm-demo-mut.log 2>&1; echo "demo_mut_rc=$?"); tail -2 $M/confirm-demo-mut.log
 git checkout -- . 
